@@ -82,10 +82,30 @@ CLAIMS["C03"] = ("proof", "Proved: the four invariant wrappers (exact traces: in
                  "outside the executor's current reach; a bounded enumeration of class programs against a reference stands in (bound stated in "
                  "the evidence, never counted in obligations/discharged).", "8 C03")
 
+CLAIMS["C06"] = ("proof", "Structural induction realised as modular verification: every visit_X of _recompute.Visitor under contract (Constant, "
+                 "Expr, Name, NamedExpr, UnaryOp, BinOp, BoolOp, Compare, IfExp, Attribute, Subscript, Slice, List, Tuple, Set, JoinedStr) is proved "
+                 "against a trusted specification of Python's expression semantics: the result is the value Python computed, every entry of "
+                 "recomputed_values is such a value; the collector methods of _represent.Visitor put exactly the recomputed value of the node under "
+                 "its source text; repr_values shows exactly those plus the representable, unshadowed arguments. NOT proved, BOUNDED (expression "
+                 "replay family against CPython): visit_Call, visit_Dict, visit_FormattedValue's string assembly, the comprehension visitors, the "
+                 "all()-tracing (_trace_all_with_generator, _translate_all_expression_to_a_module), Visitor.__init__, collect_variable_lookup. "
+                 "Recorded findings: F8c, F9.", "8 C06")
+CLAIMS["C07"] = ("proof", "(a) Every recursive visit and every re-applied Python operation in the visit methods under contract carries the "
+                 "obligation 'Python itself evaluated this sub-expression / performed this operation' (short-circuit of and/or/comparison "
+                 "chains/conditional expressions), and the methods are total on evaluated nodes, so message building raises nothing foreign and "
+                 "evaluates nothing Python skipped; (b) generate_message's text is location, description, condition text, then the value part, "
+                 "proved as an equation over string pieces; (c) inspect_decorator's two scanning loops delimit exactly the lines from the nearest "
+                 "decorator line at or above the lambda to the nearest decorator/def/class line below. Layout independence holds under the stated "
+                 "precondition (no continuation line of the decorator starts with @identifier, def, class): F9 is the recorded counter-layout. "
+                 "visit_Call/visit_Dict/comprehension visitors: bounded (expression replay family); F8c recorded.", "8 C07")
+CLAIMS["C20"] = ("proof", "repr_values: the two loops that produce lines iterate sorted(...) of the keys (syntactic obligation + exact expected "
+                 "trace of repr calls in ascending key order), every value is rendered by a call of the contract's own a_repr.repr (obligation at "
+                 "each call; no repr()/str()/f-string on values: syntactic obligation), the shown set is exactly collected values + representable "
+                 "unshadowed arguments without _ARGS/_KWARGS unless the condition names them; generate_message passes the contract's _a_repr and "
+                 "this call's values; _representable is the five-way filter. Size limits are reprlib's (trusted). The all()-example block is "
+                 "outside the proof (assumption listed).", "8 C20")
+
 NOT_YET = {
-    "C06": "interpreter units (_recompute.Visitor) not yet under contract",
-    "C07": "interpreter and decorator-inspection units not yet under contract",
-    "C20": "repr_values / _represent units not yet under contract",
 }
 
 
@@ -97,7 +117,7 @@ def main():
             "quick_cmd": "./check %s --tier quick" % pid,
             "thorough_cmd": "./check %s --tier thorough" % pid,
             "evidence_file": "/verif/evidence/%s.json" % pid,
-            "replay_cmd_template": "PYTHONPATH=/repo /venv/bin/python /verif/replay/%s --scenario {path}" % ({"C05": "bindfam.py", "C12": "ctxfam.py", "C15": "defnfam.py", "C19": "defnfam.py", "C14": "defnfam.py", "C03": "invfam.py", "C04": "histfam.py", "C17": "histfam.py", "C18": "histfam.py"}.get(pid, "callfam.py")),
+            "replay_cmd_template": "PYTHONPATH=/repo /venv/bin/python /verif/replay/%s --scenario {path}" % ({"C05": "bindfam.py", "C12": "ctxfam.py", "C15": "defnfam.py", "C19": "defnfam.py", "C14": "defnfam.py", "C03": "invfam.py", "C06": "exprfam.py", "C07": "exprfam.py", "C20": "exprfam.py", "C04": "histfam.py", "C17": "histfam.py", "C18": "histfam.py"}.get(pid, "callfam.py")),
             "engine": "pyvc",
             "level_claimed": {"category": cat, "text": text + " The units under contract are listed with their AST hashes in the evidence file.", "design_ref": "DESIGN.md section " + ref},
             "level_note": TRUST,
